@@ -1053,6 +1053,26 @@ class PyCdlib:
                                       dir_record)
                 offset += lenbyte
 
+                # Read the Rock Ridge continuation area (if any) first; the
+                # version, symlink and relocation entries may live there.
+                if new_record.rock_ridge is not None and new_record.rock_ridge.dr_entries.ce_record is not None:
+                    ce_record = new_record.rock_ridge.dr_entries.ce_record
+                    orig_pos = cdfp.tell()
+                    self._seek_to_extent(ce_record.bl_cont_area)
+                    cdfp.seek(ce_record.offset_cont_area, os.SEEK_CUR)
+                    con_block = cdfp.read(ce_record.len_cont_area)
+                    new_record.rock_ridge.parse(con_block, False,
+                                                new_record.rock_ridge.bytes_to_skip,
+                                                True, new_record.file_identifier())
+                    cdfp.seek(orig_pos)
+                    block = self.pvd.track_rr_ce_entry(ce_record.bl_cont_area,
+                                                       ce_record.offset_cont_area,
+                                                       ce_record.len_cont_area)
+                    new_record.rock_ridge.update_ce_block(block)
+
+                if new_record.rock_ridge is not None:
+                    rr = new_record.rock_ridge.rr_version
+
                 self._set_rock_ridge(rr)
 
                 # Cache some properties of this record for later use.
@@ -1116,21 +1136,6 @@ class PyCdlib:
                         # size is wrong.  Set the lastbyte appropriately, which
                         # will eventually be used to fix the PVD size.
                         lastbyte = max(lastbyte, new_end)
-
-                if new_record.rock_ridge is not None and new_record.rock_ridge.dr_entries.ce_record is not None:
-                    ce_record = new_record.rock_ridge.dr_entries.ce_record
-                    orig_pos = cdfp.tell()
-                    self._seek_to_extent(ce_record.bl_cont_area)
-                    cdfp.seek(ce_record.offset_cont_area, os.SEEK_CUR)
-                    con_block = cdfp.read(ce_record.len_cont_area)
-                    new_record.rock_ridge.parse(con_block, False,
-                                                new_record.rock_ridge.bytes_to_skip,
-                                                True, new_record.file_identifier())
-                    cdfp.seek(orig_pos)
-                    block = self.pvd.track_rr_ce_entry(ce_record.bl_cont_area,
-                                                       ce_record.offset_cont_area,
-                                                       ce_record.len_cont_area)
-                    new_record.rock_ridge.update_ce_block(block)
 
                 if rr_cl:
                     child_links.append(new_record)
